@@ -694,6 +694,26 @@ func runC1(c CaseC) (v *core.Violation) {
 			}
 		}
 	}
+	// every socket the agent was told to open and was not told to close (nor ended itself) is
+	// registered.  (Order inside the queue is not judged here: a kill can queue its close task
+	// just before the handler queues the connect task.)
+	if !x.uncertain {
+		queued, tv := x.f.takeTasks()
+		if tv != nil {
+			return tv
+		}
+		closeTask := map[uint32]bool{}
+		for _, t := range queued {
+			if t.Sub == scClose {
+				closeTask[t.ID] = true
+			}
+		}
+		for _, t := range queued {
+			if t.Sub == scConnect && !closeTask[t.ID] && !x.agentClosed[t.ID] && ids[t.ID] == 0 {
+				return core.V("c|rest|connect-task-without-close", "the agent was handed a connect task for socket %08x; at rest that socket is not registered, the agent did not end it and no close task for it was queued", t.ID)
+			}
+		}
+	}
 	// the proxy table against every linearisation of the commands
 	if !x.uncertain {
 		for slot, port := range x.ports {
